@@ -52,7 +52,7 @@ class C07(Prop):
         self.rig.uninstall(asyncio.get_running_loop())
 
     def cases(self, tier, seed, shard, nshards):
-        n = {"quick": 2_400, "thorough": 30_000}[tier]
+        n = {"quick": 2_400, "thorough": 160_000}[tier]
         for i in range(shard, n, nshards):
             yield {"i": i, "seed": seed}
 
